@@ -381,7 +381,7 @@ class Pair:
                 secret = self.b.cookie_secret
                 ik = MODS['ikesa']
                 self.b = ik.IkeSa(is_initiator=False, peer_spi=self.a.my_spi, my_addr=IP2, peer_addr=IP1,
-                                  configuration=self.configuration.get_ike_configuration(IP2, IP1), cookie_secret=secret)
+                                  configuration=self.b.configuration, cookie_secret=secret)
                 self.B.obj = self.b
             assert len(msgs) < 12
         S = MODS['ikesa'].IkeSa.State
